@@ -112,6 +112,10 @@ class Mini:
         self.tick()
         if e is not None and e.k in ('CStyleCastExpr', 'ImplicitCastExpr', 'CXXStaticCastExpr', 'CXXFunctionalCastExpr') and e.child('sub') is not None and self.c_ints:
             v = self.ev(e.child('sub'), env)
+            if 'FloatingToIntegral' in (e.cast or ''):
+                from fractions import Fraction
+                if isinstance(v, (Fraction, float)):
+                    v = int(v)          # conversion to an integer type truncates toward zero
             return _wrap(e.ct or e.t, v) if (e.cast or '') in ('IntegralCast', 'NoOp', '') or 'Integral' in (e.cast or '') else v
         e = _strip_casts(e)
         if e is None:
@@ -138,6 +142,17 @@ class Mini:
                 return v_
             if self._typed(e) is not None:
                 return self._typed(e)
+            if e.dk in ('static', 'local') and '[' in (e.ct or e.t or '') and 'const' in (e.t or ''):
+                # a constant lookup table declared in the function (`static const T table[] = {...}`): its initialiser
+                vd = next((v for v in e.fn.walk() if v.k == 'VarDecl' and v.d == e.d and v.child('init') is not None), None)
+                i_ = _strip_casts(vd.child('init')) if vd is not None else None
+                if i_ is not None and i_.k == 'InitListExpr':
+                    vals = [self.ev(c_, {}) for c_ in i_.c if c_ is not None and c_.k != 'ImplicitValueInitExpr']
+                    m_ = __import__('re').search(r'\[(\d+)\]', e.ct or e.t or '')
+                    if m_:
+                        vals += [0] * (int(m_.group(1)) - len(vals))
+                    env[e.n] = Ptr(vals, 0)
+                    return env[e.n]
             if e.dk == 'param' and ('&' in (e.t or '') or 'struct' in (e.ct or '') or 'Stream' in (e.t or '')):
                 return ('opaque', e.n)      # an output stream or similar handle that is only passed on
             raise AnalysisBroken('mini-interpreter: unbound variable `%s`' % e.n)
@@ -324,7 +339,7 @@ class Mini:
             for v in s.c:
                 if v is not None and v.k == 'VarDecl':
                     import re as _re
-                    am = _re.fullmatch(r'(?:const )?([\w ]+?)\s*\[(\d+)\]', (v.ct or v.t or '').strip())
+                    am = _re.fullmatch(r'(?:const )?([\w: ]+?)\s*\[(\d+)\]', (v.ct or v.t or '').strip())
                     if am and int(am.group(2)) <= 4096:
                         arr = [0] * int(am.group(2))
                         i_ = _strip_casts(v.child('init')) if v.child('init') is not None else None
